@@ -130,3 +130,50 @@ _mk("C14",
                "The effects-prefix clause is decided on the implementation's outputs for every poll index of every generated program (not a theorem: partial).",
     level_note="Partial: effects_prefix is not proved in Lean (use() nested inside a larger expression lets the rest of that expression run after the callee observed the signal: known finding); v2 is covered by C18's machinery.",
     extra_tb=[TB_FLOAT])
+
+_mk("C09",
+    ["Platypus.Properties.C09"],
+    rule="script sets of 1..4 scripts, each valid with 0..2 use() calls to any member (itself included) or to a missing name, unparsable, or check-failing: exhaustive for 1 and 2 scripts "
+         "(and 3 in thorough), sampled for 3 and 4, x every visiting order through the verif hook LinkInOrder (all permutations up to 3 scripts, 3 random for 4) and, for a sample, 4-6 loads through the real ParseScript (Go map order); "
+         "named regression shapes (diamond, double/triple use, two paths, cycle off the root, self use, bad leaf); compared: accepted set, every root's error chain, PrivateData bindings; "
+         "specification evaluated on the implementation's results: accepted = least fixed point Good, bindings by name, identical verdicts across loads; strict",
+    technique="Lean 4 theorems: linker accepts exactly the Good (least-fixed-point) scripts for every visiting order, errors and bindings order-independent + exhaustive small script sets x all orders against the real loader",
+    level_text="Kernel-checked: for every script set and every visiting order covering the checked scripts, the model of the depth-first linker with its memo accepts exactly the scripts that parse, check and reach only accepted scripts without a cycle; "
+               "accepted set and each rejected script's error do not depend on the order; every use call of an accepted script is bound to the script of that name; double use and diamonds are accepted. Tied to callref.go by exhaustive sets x orders.",
+    level_note="Hook: pkg/engine/verif_hooks.go (build tag verif) exposes the driver loop with a caller-given order; the real ParseScript is exercised too.",
+    exhaustive=True)
+
+_mk("C08",
+    ["Platypus.Properties.C08", "Platypus.Properties.C08Facts"],
+    rule="52 base programs with one marked expression or statement position each (assignment sides, list/map elements, operands, index expressions, every slice bound and step in every slice form, call and named arguments, "
+         "conditions, all three for clauses, for-in iterables, nested blocks, positions after a loop ended) x 86 expression offenders (unknown function, wrong count/literal kind for every builtin incl. valid calls, map keys) "
+         "or 10 statement offenders (break/continue outside/inside/after loops); random programs with and without an injected offender; verdict and error position compared with the model check pass; strict",
+    technique="Lean 4 theorems: check pass sound (every call anywhere registered and checker-accepted, break/continue in loops) and complete for arbitrary function tables + regenerated traversal table of both check passes matched by decide + offender-injection correspondence",
+    level_text="Kernel-checked for arbitrary registered function tables: if the check pass accepts, every call node at any depth and position names a registered function whose checker accepted it and every break/continue lies in a loop; "
+               "a script of valid constructs is accepted. The per-node-kind traversal (which children are visited under which guard) is regenerated from checkstmt.go and r_check.go on every run and matched against the model by decide.",
+    level_note="Soundness for break/continue assumes checkers leave the loop counter alone (proved for the builtin table: builtinCheck_keeps_loops); the v2 pass is the same code (regenerated table equality).",
+    exhaustive=True)
+
+_mk("C05",
+    ["Platypus.Properties.C05"],
+    rule="byte strings: random bytes incl. invalid UTF-8 and NUL, token soups over 90 lexemes (malformed numbers, unterminated strings/escapes, raw strings, comments, multi-byte runes), "
+         "generated valid programs with one byte deleted/duplicated/replaced, ~70 named hard cases (nesting depth 2000-3000 of every bracket kind, unary chains, long operator chains); "
+         "the exported lexer's item stream is compared item by item with the model; on the implementation's outputs: coverage of the source by the items, exactly one of tree/error, "
+         "error positioned inside the source with the line/column of its offset, no parser process death or hang",
+    technique="Lean 4 theorems about the lexer state machine (terminates, items cover the source without overlap skipping only blanks, positions inside the source) + item-stream correspondence with the real lexer + tree-xor-positioned-error check of the real parser",
+    level_text="Kernel-checked for every byte string: the model of lex.go always yields an item, the items up to EOF/ERROR cover the source in order without overlap and skip only blanks, every position lies inside the source. "
+               "The model is tied to lex.go by comparing item streams; the parser's tree-xor-positioned-error clause is decided on the implementation for every generated input.",
+    level_note="Partial: termination of the goyacc LALR loop and its tables are goyacc's (trusted); the parser clause is checked on inputs, not proved.",
+    exhaustive=False)
+
+_mk("C19",
+    ["Platypus.Properties.C19"],
+    rule="exhaustive: every parameter list of length 0..3 (quick) / 0..4 (thorough) over {required, optional, variadic, optional+variadic} x names {a, b, 1x} (duplicates arise), "
+         "plus extra name classes (empty, _u, a1, a-b, A), x every call shape of 0..3 (quick) / 0..4 (thorough) arguments each positional or named a/b/zz: "
+         "the call is loaded and run by the real v2 engine (CheckFnParamDef, CheckPassParam via CallCheck, GetParam for every parameter via Call); one case per parameter list (85 / 341 calls inside); "
+         "compared with the model and, for well-formed lists, with the declarative binding specification; strict",
+    technique="Lean 4 theorems (CheckFnParamDef = well-formedness; for well-formed lists CheckPassParam+GetParam = declarative binding specification, rejections) + exhaustive parameter-list x call-shape correspondence",
+    level_text="Kernel-checked for all parameter lists and all call shapes: validation accepts exactly the well-formed lists; for a well-formed list a call is accepted exactly when it can be bound and then every parameter receives exactly "
+               "its positional/named argument, its default, or the variadic tail in order. Tied to funcs.go by the exhaustive enumeration.",
+    level_note="Names are ASCII in model and generator (unicode.IsLetter/IsDigit on non-ASCII runes is Go's); typed getters (GetParamInt, ...) are not modelled.",
+    exhaustive=True)
